@@ -312,7 +312,7 @@ def syn_confluent_spec(draw, allow_fail: bool = True) -> dict[str, Any]:
     return {"name": "synconf", "stages": [stage("a", [], [ok(emit("k_a"))]), p, stage("z", ["p"], [ok()])]}
 
 
-LOOP_SHAPES = ["self", "cycle2", "cycle3", "cycle4", "side", "side_target", "fwd", "unknown", "two_routers", "mid_target", "nested"]
+LOOP_SHAPES = ["self", "cycle2", "cycle3", "cycle4", "side", "side_target", "router_multi", "fwd", "unknown", "two_routers", "mid_target", "nested"]
 
 
 def make_loop(shape: str, j: int, max_jumps: int | None, tail: bool = True) -> dict[str, Any]:
@@ -340,6 +340,10 @@ def make_loop(shape: str, j: int, max_jumps: int | None, tail: bool = True) -> d
         st_ = [stage("a", [], [ok(emit("k_a", "iter"))]), stage("b", ["a"], [ok()]), stage("s1", ["a"], [ok(emit("k_s1", "echo", src="k_a"))]),
                stage("s2", ["s1"], [ok()]), stage("r", ["b"], [jt("a")]), stage("j", ["r", "s2"], [ok()])]
         last = "j"
+    elif shape == "router_multi":
+        # the jumping task is followed by another task of the same stage (which only runs once the loop is left)
+        st_ = [stage("a", [], [ok(emit("k_a", "iter"))]), stage("r", ["a"], [jt("a"), ok(emit("k_r2"))])]
+        last = "r"
     elif shape == "fwd":
         st_ = [stage("a", [], [jt("d")]), stage("b", ["a"], [ok()]), stage("c", ["a"], [ok()]), stage("d", ["b", "c"], [ok()])]
         last = "d"
